@@ -192,8 +192,8 @@ def replay(seed, idx, desc, name, be):
 def run(tier, seed):
     chk = Check("C08", tier, seed, "other")
     try:
-        from ..kernels import c01_lowering, c08_align, c01_decompose
-        for k in c01_lowering.KERNELS + c08_align.KERNELS + c01_decompose.KERNELS:
+        from ..kernels import c01_lowering, c08_align, c01_decompose, c14_dataflow
+        for k in c01_lowering.KERNELS + c08_align.KERNELS + c01_decompose.KERNELS + c14_dataflow.KERNELS_C08:
             chk.add_kernel(run_kernel(k, tier))
         chk.add_lemmas(tier)
     except ImportError:
